@@ -848,6 +848,7 @@ def exec (md : Module) (ins : Instr) (orc : Oracle) : M Unit := do
   | .ID_DIM_SLICE => do
     let sref ← rdAddr (sp - (i32 ins.w0 - i32 ins.w1))
     let slice ← getVecRef sref
+    if slice == 0 then raise 8 else   -- (nil test added by the `fix:` commit 8a508e2, like 7100a94 for arrays)
     let range ← getVec slice 1
     let dim := i32 ins.w2
     let value : Int ← if dim % 2 == 0 then pure 0 else do
